@@ -146,3 +146,64 @@ func VerifH_C02_exclude() {
 	verifAssert(n <= 1, "filter duplicated a request")
 	verifAssert((n == 0) == covered, "request dropped although no exclusion line covers it, or forwarded although one does")
 }
+
+type c02GenN struct{ rqs []*scan.Request }
+
+func (g *c02GenN) GenerateRequests(ctx context.Context, r *scan.Range) (<-chan *scan.Request, error) {
+	out := make(chan *scan.Request, len(g.rqs))
+	for _, rq := range g.rqs {
+		out <- rq
+	}
+	close(out)
+	return out, nil
+}
+
+// VerifH_C02_excludeSeq: K requests in a row through the exclusion filter (same file choices as
+// VerifH_C02_exclude), each with a solver-chosen address in 4- or 16-byte spelling: every one is
+// judged on its own address - forwarded, in order and unchanged, iff no line covers it.
+func VerifH_C02_excludeSeq() {
+	text := c02Text()
+	ex, err := parseExcludeFile(func() (io.ReadCloser, error) { return io.NopCloser(strings.NewReader(text)), nil })
+	verifAssert(err == nil && ex != nil, "well-formed exclusion file refused")
+	if err != nil {
+		return
+	}
+	nets := c02RefParse(text)
+	K := verifParam("K", 2)
+	var rqs []*scan.Request
+	var covered []bool
+	for i := 0; i < K; i++ {
+		a := ndBytes("addr", 4)
+		a32 := uint32(a[0])<<24 | uint32(a[1])<<16 | uint32(a[2])<<8 | uint32(a[3])
+		ip := net.IP(a)
+		if ndBool("spell16") {
+			ip = net.IPv4(a[0], a[1], a[2], a[3])
+		}
+		cov := false
+		for _, n := range nets {
+			cov = verifOr(cov, a32&n.mask == n.base)
+		}
+		rqs = append(rqs, &scan.Request{DstIP: ip, DstPort: uint16(80 + i)})
+		covered = append(covered, cov)
+	}
+	ch, gerr := scan.NewFilterIPRequestGenerator(&c02GenN{rqs}, ex).GenerateRequests(context.Background(), &scan.Range{})
+	verifAssert(gerr == nil, "filter refused a working source")
+	if gerr != nil {
+		return
+	}
+	var got []*scan.Request
+	for rq := range ch {
+		got = append(got, rq)
+	}
+	j := 0
+	for i, rq := range rqs {
+		fwd := j < len(got) && got[j] == rq
+		if fwd {
+			j++
+			verifAssert(rq.Err == nil && int(rq.DstPort) == 80+i, "filter altered a forwarded request")
+		}
+		verifAssert(fwd == !covered[i], "request dropped although no exclusion line covers it, or forwarded although one does (verdict of a neighbour?)")
+	}
+	verifAssert(j == len(got), "filter duplicated or invented a request")
+	verifCover("done")
+}
